@@ -462,7 +462,7 @@ Section EndFrame.
   Lemma Se_go : forall f k x s, deleting k -> Se s (go P f k x s).
   Proof.
     induction f as [|f IH]; intros k x s Hk; [exact I|].
-    destruct k as [t|w|w|l|l|l|l|l n|l n|w n|w d|w|w|w|w|w i|src n w|src ns w|w v| |w| |];
+    destruct k as [t|w|w|l|l|l|l|l n|l n|w n|w d|w|w|w|w|w i|src n w|src ns w|w v| |w|w ps| |];
       cbn [deleting] in Hk; try contradiction.
     - cbn [go]; cbv zeta. repeat se_step IH.
     - cbn [go]; cbv zeta. repeat se_step IH.
@@ -588,7 +588,7 @@ Section Events.
   Lemma Sv_go : forall f k x s, deleting k -> Sv s (go P f k x s).
   Proof.
     induction f as [|f IH]; intros k x s Hk; [exact I|].
-    destruct k as [t|w|w|l|l|l|l|l n|l n|w n|w d|w|w|w|w|w i|src n w|src ns w|w v| |w| |];
+    destruct k as [t|w|w|l|l|l|l|l n|l n|w n|w d|w|w|w|w|w i|src n w|src ns w|w v| |w|w ps| |];
       cbn [deleting] in Hk; try contradiction.
     - cbn [go]; cbv zeta. repeat sv_step IH.
     - cbn [go]; cbv zeta. repeat sv_step IH.
